@@ -3,6 +3,8 @@
    (model.ml, untouched extraction output) and prints one result line per
    command in the harness' output format.  Only parsing and printing live here. *)
 open Model
+(* Model/Pool.v brings Coq's own string type into model.ml; in this file `string` is OCaml's *)
+type string = Stdlib.String.t
 
 (* ---------- conversions between text and the Coq number types ---------- *)
 let rec pos_bits (p : positive) : int list =        (* LSB first *)
@@ -158,6 +160,19 @@ and dump_node : 'c. (Buffer.t -> 'c -> unit) -> Buffer.t -> 'c rnode -> unit = f
   | N256 (h, len, slots) ->
     Buffer.add_string b (Printf.sprintf "256(%s," (hd h len)); list slot slots; Buffer.add_char b ')'
 
+(* the raw node of Model/Pool.v with every slot, in the format of VerifNode.RawDump:
+   <kind>(<childrenLen>,<prefixLen>,<prefix>,<raw keys>,[s0;s1;...]) *)
+let raw_node (x : int xnode) : string =
+  let hd k (h : xhdr) =
+    Printf.sprintf "%d(%d,%d,%s," k (int_of_n h.xlen) (int_of_nat h.xplen) (hex_of_bytes h.xprefix) in
+  let slots ch =
+    "[" ^ String.concat ";" (List.map (fun o -> match o with None -> "-" | Some c -> string_of_int c) ch) ^ "])" in
+  match x with
+  | X4 (h, keys, ch) -> hd 4 h ^ Printf.sprintf "%08x," (int_of_n keys) ^ slots ch
+  | X16 (h, keys, ch) -> hd 16 h ^ hex_of_bytes keys ^ "," ^ slots ch
+  | X48 (h, idx, ch) -> hd 48 h ^ hex_of_bytes idx ^ "," ^ slots ch
+  | X256 (h, ch) -> hd 256 h ^ "," ^ slots ch
+
 let dump_state (st : state) : string =
   let b = Buffer.create 256 in
   Buffer.add_string b (Printf.sprintf "DUMP %d " (int_of_z st.size));
@@ -229,6 +244,9 @@ let write_coq (path : string) : unit =
 (* ---------- command loop ---------- *)
 let trees : (string, kind * state) Hashtbl.t = Hashtbl.create 16
 let nodes : (string, int rnode) Hashtbl.t = Hashtbl.create 16
+(* the same handles as raw nodes (Model/Pool.v): every Get is answered by a new node (empty oracle,
+   empty pool; Proofs/PoolFacts.v: the pool only ever holds cleared nodes, so this is no restriction) *)
+let xnodes : (string, int xnode) Hashtbl.t = Hashtbl.create 16
 
 let show_out (k : kind) (tag : string) (o : out) : string =
   match o with
@@ -312,10 +330,19 @@ let handle (line : string) : string option =
   | ["N16I"; keys; len; b] ->
     Some ("N16I " ^ show_int_z (insertPosNode16 (bytes_of_hex keys) (n_of_hex len) (n_of_hex b)))
   (* bare node handle; children are integers *)
-  | ["NNEW"; nid] -> Hashtbl.replace nodes nid (empty4 hdr0); Some "NNEW"
+  | ["NNEW"; nid] ->
+    Hashtbl.replace nodes nid (empty4 hdr0);
+    Hashtbl.replace xnodes nid (xzero K4);
+    Some "NNEW"
   | ["NADD"; nid; b; c] ->
-    Hashtbl.replace nodes nid (nadd (Hashtbl.find nodes nid) (n_of_hex b) (int_of_string c)); Some "NADD"
-  | ["NDEL"; nid; b] -> Hashtbl.replace nodes nid (ndel (Hashtbl.find nodes nid) (n_of_hex b)); Some "NDEL"
+    Hashtbl.replace nodes nid (nadd (Hashtbl.find nodes nid) (n_of_hex b) (int_of_string c));
+    Hashtbl.replace xnodes nid (fst (xadd (Hashtbl.find xnodes nid) (n_of_hex b) (int_of_string c) [] []));
+    Some "NADD"
+  | ["NDEL"; nid; b] ->
+    Hashtbl.replace nodes nid (ndel (Hashtbl.find nodes nid) (n_of_hex b));
+    Hashtbl.replace xnodes nid (fst (xdel (Hashtbl.find xnodes nid) (n_of_hex b) [] []));
+    Some "NDEL"
+  | ["NRAW"; nid] -> Some ("NRAW " ^ raw_node (Hashtbl.find xnodes nid))
   | ["NFIND"; nid; b] ->
     Some (match nfind (Hashtbl.find nodes nid) (n_of_hex b) with None -> "NFIND none" | Some c -> Printf.sprintf "NFIND %d" c)
   | ["NENUM"; nid] ->
